@@ -19,20 +19,18 @@ theorem replace_inner_step (other : Handle) (s : St) :
   | stat i l => rt_step [releaseRepr]
   | heap a l =>
     cases hg : hp.get? a with
-    | none => rt_step [hg, releaseRepr, release_of_none hg, hr_refcount_none rf st hp a l _ hg]
+    | none => rt_heap_none rf st hp a l hg [releaseRepr, release_of_none hg]
     | some b =>
       have hs := slots_of_get hg
       by_cases h0 : b.rc = 0
-      · rt_step [hg, h0, releaseRepr, Heap.release, hs, hr_refcount_some rf st hp a l _ hg, rc_fetch_sub_some rf st hp a l _ _ _ hg]
+      · rt_heap_some rf st hp a l hg [h0, releaseRepr, Heap.release, hs]
       · by_cases h1 : b.rc = 1
         · have hg0 : (hp.setBlock a { b with rc := 0 }).get? a = some { b with rc := 0 } := setBlock_get hp a b _ hg
-          rt_step [hg, h1, releaseRepr, Heap.release, hs, hr_refcount_some rf st hp a l _ hg,
-            rc_fetch_sub_some rf st hp a l _ _ _ hg, Nat.sub_self, Nat.one_ne_zero, hr_dealloc_some rf st _ a l _ hg0,
+          rt_heap_some rf st hp a l hg [h1, releaseRepr, Heap.release, hs, Nat.sub_self, Nat.one_ne_zero, hr_dealloc_some rf st _ a l _ hg0,
             ne_eq, not_true_eq_false]
           by_cases hz : b.size = HEADER + b.cap
           · simp only [hz, ↓reduceIte, Heap.setBlock, List.set_set]
           · simp only [hz, ↓reduceIte]
-        · rt_step [hg, h0, h1, releaseRepr, Heap.release, hs, hr_refcount_some rf st hp a l _ hg,
-            rc_fetch_sub_some rf st hp a l _ _ _ hg]
+        · rt_heap_some rf st hp a l hg [h0, h1, releaseRepr, Heap.release, hs]
 
 end LS.GenTie
